@@ -14,6 +14,7 @@ EXPLANATION = (
 def run(ctx):
     ctx.uses('simulator', 'simevent')
     sc = S.SimCtx(ctx.prog)
+    S.shared_state(ctx, sc, 'R5.5')
     S.r51_strategy_table(ctx, sc)
     S.r52_handler_cannot_raise(ctx, sc)
     S.r53_step_finally(ctx, sc)
